@@ -5,6 +5,7 @@ from props.common import *
 from props import dwtfam
 
 ID = 'C13'
+GRAD_MODES = True
 PROPS_MODULE = 'Props.C13'
 THEOREMS = ['C13_level_row', 'C13_closed_form', 'C13_shift', 'C13_level_col', 'C13_level_2d', 'C13_multilevel']
 VO = ['theories/Props/C13.vo', 'theories/Run/RunDwt.vo', 'theories/Run/RunSpec.vo']
